@@ -231,6 +231,61 @@ def dense_lengths(env):
     return cw
 
 
+ZEROIZE_PROBE = """// generated by props/c11.py: the contexts implement zeroize::Zeroize - what does export give afterwards?
+use hpke::{aead::ChaCha20Poly1305 as A, kdf::HkdfSha256 as K, kem::X25519HkdfSha256 as M, Kem, OpModeR, OpModeS};
+use hpke::rand_core::{CryptoRng, RngCore};
+use zeroize::Zeroize;
+struct Z(u8);
+impl RngCore for Z {
+    fn next_u32(&mut self) -> u32 { self.0 = self.0.wrapping_mul(13).wrapping_add(7); self.0 as u32 }
+    fn next_u64(&mut self) -> u64 { self.next_u32() as u64 }
+    fn fill_bytes(&mut self, d: &mut [u8]) { for b in d.iter_mut() { *b = self.next_u32() as u8 } }
+}
+impl CryptoRng for Z {}
+fn main() {
+    println!("PROBE_STARTED");
+    let (skr, pkr) = M::derive_keypair(b"0123456789abcdef0123456789abcdef");
+    let (enc, mut s) = hpke::setup_sender::<A, K, M, _>(&OpModeS::Base, &pkr, b"info", &mut Z(3)).unwrap();
+    let mut r = hpke::setup_receiver::<A, K, M>(&OpModeR::Base, &skr, &enc, b"info").unwrap();
+    let (mut a, mut b, mut c, mut d) = ([0u8; 32], [0u8; 32], [0u8; 32], [0u8; 32]);
+    s.export(b"ctx", &mut a).unwrap();
+    r.export(b"ctx", &mut b).unwrap();
+    @WIPE@
+    let (rs, rr) = (s.export(b"ctx", &mut c), r.export(b"ctx", &mut d));
+    println!("BEFORE {:02x?} {:02x?}", &a[..8], &b[..8]);
+    println!("AFTER sender {:?} {} receiver {:?} {}", rs, if rs.is_ok() && c != a { "DIFFERS" } else { "same_or_error" }, rr, if rr.is_ok() && d != b { "DIFFERS" } else { "same_or_error" });
+}
+"""
+
+
+def zeroize_probe(env):
+    """Only if the compiled crate's surface says a context implements Zeroize (it does not at the pinned commit): export is
+    'unaffected by what was done before and repeatable' - after a caller wiped the context it may refuse, it may not hand
+    out a different (all-contexts-alike) value."""
+    from lib import apisurface
+    d, why = apisurface.rustdoc_json()
+    if d is None:
+        env.note("context surface not inspected: %s" % why)
+        return
+    facts = apisurface.surface(d)
+    zs = any(f.startswith("impl Zeroize for AeadCtxS") for f in facts)
+    zr = any(f.startswith("impl Zeroize for AeadCtxR") for f in facts)
+    env.extra_cov["contexts_implement_zeroize"] = {"sender": zs, "receiver": zr}
+    if not (zs or zr):
+        return
+    wipe = ("s.zeroize(); " if zs else "") + ("r.zeroize();" if zr else "")
+    ok, out = apisurface.run_probe(env.work, "zeroize", ZEROIZE_PROBE.replace("@WIPE@", wipe), extra_deps='zeroize = { version = "1", default-features = false }\n')
+    env.count("evaluations", 1)
+    if not ok:
+        env.note("a context implements Zeroize but the probe did not build or start: %s" % out[-300:])
+        return
+    if "DIFFERS" in out:
+        line = [l for l in out.splitlines() if l.startswith("AFTER")][:1]
+        env.violation("C11:export_changes_after_zeroize", "after Zeroize::zeroize on the context, export with the same arguments succeeds with a different value: %s" % (line[0][:300] if line else "?"), workload="export")
+    else:
+        env.seen("zeroize-probe")
+
+
 def run(env):
     per, dense = env.pick((1, 0.15), (6, 0.5))
     cw = build(env, per, dense)
@@ -241,6 +296,7 @@ def run(env):
     env.require_complete(res, "rejects")
     env.pmap(monitor, res.sessions, workload="export")
     panic_abort_probe(env)
+    zeroize_probe(env)
     if not env.quick():
         res = env.drive("dense", dense_lengths(env).text())
         env.require_complete(res, "dense")
